@@ -78,7 +78,11 @@ class WMSImageExceptionHandler(ExceptionHandler):
         bgcolor = WMSImageExceptionHandler._bgcolor(request.params)
         image_opts = ImageOptions(format=format, bgcolor=bgcolor, transparent=transparent)
         result = message_image(request_error.msg, size=size, image_opts=image_opts)
-        return Response(result.as_buffer(), content_type=params.format_mime_type)
+        content_type = params.format_mime_type
+        if content_type and '/' not in content_type:
+            # format name without type as in WMS 1.0.0 (FORMAT=PNG)
+            content_type = 'image/' + content_type.lower()
+        return Response(result.as_buffer(), content_type=content_type)
 
     @staticmethod
     def _bgcolor(params):
